@@ -234,6 +234,11 @@ def pair_exec(ctx, rep):
                 continue
             flips = [e for e in p.evs("store") if e.d["target"][0] == "attr" and e.d["target"][2] == "is_shutdown" and e.d["value"] == ("const", True)]
             decs = [q.metric_of(e) for e in p.calls() if q.metric_of(e) and q.metric_of(e)[0] == "EXEC_INPROGRESS"]
+            for b in p.evs("branch"):
+                t = b.d[0]
+                if isinstance(t, tuple) and t[0] == "attr" and t[2] == "is_shutdown" and it.type_of(t[1], p) == "C:" + helper.key:
+                    locked = any(l[1] == ("attr", t[1], lockfield) for l in b.locks)
+                    rep.ob("R-PAIR-E", "%s.shutdown: 'first shutdown' decided atomically" % ci.name, locked, "the flag is read outside the helper's lock, so two concurrent shutdown() calls can both dec the gauge", where_of(b.fn, b.node), trace_of(p, b.seq))
             if flips:
                 ok = len(decs) == 1 and decs[0][1] == "dec"
                 rep.ob("R-PAIR-E", "%s.shutdown: EXEC_INPROGRESS dec once on first shutdown" % ci.name, ok, "found %d inc/dec on the first-shutdown path" % len(decs), where_of(shut), trace_of(p))
